@@ -11,6 +11,7 @@ on the implementation by running after unrelated allocations, earlier runs and f
 -/
 import ClvmProofs.Lemmas.Interp.Repr
 import ClvmProofs.Lemmas.Interp.ReprMachine
+import ClvmProofs.Lemmas.Interp.ReprChia
 
 namespace Clvm.Props.C03
 open Clvm Clvm.Interp
@@ -45,29 +46,47 @@ theorem substr_repr_witness :
       .ok (1, .atom [0x00] false, { Ctr.new 1000 with atoms := (Ctr.new 1000).atoms + 1 }) :=
   opSubstr_repr_witness
 
-/-- **Whole runs (partial).** For ChiaDialect without ENABLE_GC: two runs on re-encoded programs and
-environments that never call `op_substr` inside the defect region (the guarded dialect answers) are
-runs of the real dialect and end with the same error kind, or the same cost, erased result and
-counts.  Hypotheses on operators: they return well-formed values (`OpWf`, per-operator lemmas) and
-the cryptographic operators satisfy the operator-level shape.  Missing for the full statement: the
-ENABLE_GC stuttering (`gc_candidate` looks at the tag of the operator atom) and heap-shifted runs
-after a defect-region `substr`. -/
+/-- **Whole runs (partial), any operator table.** For `ChiaDialect` with any flags (ENABLE_GC
+included): two runs on re-encoded programs and environments that never call `op_substr` inside the
+defect region (the guarded dialect answers) are runs of the real dialect and end with the same error
+kind, or the same cost, erased result and counts.  The runs may need different fuel: `gc_candidate`
+accepts only an inline operator atom, so under ENABLE_GC one run can take more `RestoreAllocator`
+steps (which change nothing but the operation stack).  Hypotheses on operators: `OpWf`, and the
+operator-level shape for `extra`; discharged for all operators in `chia_eval_retag_partial`. -/
 theorem eval_retag_partial (cfg : Cfg) (extra : String → Option OpFn) (flags0 : Flags)
     (hcore : ∀ name f, coreOpByName cfg name = some f → OpWf f)
     (hunk : ∀ op, OpWf (opUnknown op))
     (hextra : ∀ name f, extra name = some f → OpRepr true f ∧ OpWf f)
-    (hgc : hasFlag (chiaDialect cfg extra flags0).flags Gen.FLAG_ENABLE_GC = false)
-    (fuel : Nat) (c0 : Ctr) (program program' env env' : Val)
+    (fuel fuel' : Nat) (c0 : Ctr) (program program' env env' : Val)
     (hpw : program.wf = true) (hpw' : program'.wf = true) (hpe : program.erase = program'.erase)
     (hew : env.wf = true) (hew' : env'.wf = true) (hee : env.erase = env'.erase)
     (maxCost : Nat) (r r' : OpRes)
     (hr : runProgram cfg ((chiaDialect cfg extra flags0).guard substrGuard) fuel c0 program env maxCost = some r)
-    (hr' : runProgram cfg ((chiaDialect cfg extra flags0).guard substrGuard) fuel c0 program' env' maxCost = some r') :
+    (hr' : runProgram cfg ((chiaDialect cfg extra flags0).guard substrGuard) fuel' c0 program' env' maxCost = some r') :
     runProgram cfg (chiaDialect cfg extra flags0) fuel c0 program env maxCost = some r ∧
-    runProgram cfg (chiaDialect cfg extra flags0) fuel c0 program' env' maxCost = some r' ∧
+    runProgram cfg (chiaDialect cfg extra flags0) fuel' c0 program' env' maxCost = some r' ∧
     ResEraseEq true r r' :=
-  eval_retag_chia_partial cfg extra flags0 hcore hunk hextra hgc fuel c0 program program' env env'
+  eval_retag_chia_partial cfg extra flags0 hcore hunk hextra fuel fuel' c0 program program' env env'
     hpw hpw' hpe hew hew' hee maxCost r r' hr hr'
+
+/-- **Whole runs (partial), ChiaDialect with every operator and every flag set**: no operator
+hypotheses; only the defect region of `op_substr` (known finding C) is excluded. -/
+theorem chia_eval_retag_partial (cfg : Cfg) (F : Flags)
+    (fuel fuel' : Nat) (c0 : Ctr) (program program' env env' : Val)
+    (hpw : program.wf = true) (hpw' : program'.wf = true) (hpe : program.erase = program'.erase)
+    (hew : env.wf = true) (hew' : env'.wf = true) (hee : env.erase = env'.erase)
+    (maxCost : Nat) (r r' : OpRes)
+    (hr : runProgram cfg ((chiaDialect cfg cryptoExtra F).guard substrGuard) fuel c0 program env maxCost = some r)
+    (hr' : runProgram cfg ((chiaDialect cfg cryptoExtra F).guard substrGuard) fuel' c0 program' env' maxCost = some r') :
+    runProgram cfg (chiaDialect cfg cryptoExtra F) fuel c0 program env maxCost = some r ∧
+    runProgram cfg (chiaDialect cfg cryptoExtra F) fuel' c0 program' env' maxCost = some r' ∧
+    ResEraseEq true r r' :=
+  Interp.chia_eval_retag_partial cfg F fuel fuel' c0 program program' env env'
+    hpw hpw' hpe hew hew' hee maxCost r r' hr hr'
+
+/-- the cryptographic operators satisfy the operator-level shape -/
+theorem crypto_op_repr (name : String) (f : OpFn) (h : cryptoExtra name = some f) : OpRepr true f :=
+  cryptoExtra_repr name f h
 
 /-- the full statement (all programs, `heapToo = false`), kept visible -/
 def Statement : Prop := EvalRetagStatement
